@@ -28,6 +28,7 @@ Scenario (JSON-serialisable dict, every time in absolute virtual milliseconds, -
                                  close-delimited response body
   cancel      None | ms          Task.cancel() of R at that instant; events listed at the same
                                  instant are performed BEFORE the cancel in the same callback
+  c0          0|1|2: Task.cancelling() of the calling task when it starts the request (pre-cancelled and caught)
   think       ms the consumer sleeps after the headers before reading the body
   slow        1: the consumer streams instead: readany(), sleep `think`, readany(), ... until EOF
   bufsize     read_bufsize of the session (pause threshold = 2*bufsize)
@@ -363,6 +364,17 @@ def run_scenario(sc):
         rhost = "r.test" if sc.get("dns") is not None else "10.0.0.1"
 
         async def job(name, url, data=None, think=0, timeout=None):
+            if name == "R":
+                # a calling task that already carries handled cancellation requests (cancelling() = c0):
+                # cancelled and caught earlier, never uncancel()ed — e.g. a request made from a shutdown handler
+                me = asyncio.current_task()
+                for _ in range(sc.get("c0", 0)):
+                    me.cancel()
+                    try:
+                        await asyncio.sleep(0)
+                    except asyncio.CancelledError:
+                        pass
+                at["c_before"] = me.cancelling()
             try:
                 kw = {} if timeout is None else {"timeout": timeout}
                 async with session.request("POST" if data else "GET", url, data=data, **kw) as r:
@@ -384,6 +396,8 @@ def run_scenario(sc):
             except BaseException as e:  # noqa
                 res[name] = _classify(e)
             at[name] = ms(loop)
+            if name == "R":
+                at["c_after"] = asyncio.current_task().cancelling()
 
         tasks = {}
 
@@ -510,7 +524,7 @@ def run_scenario(sc):
             dns_waiters=sum(len(v) for v in conn._throttle_dns_futures.values()),
             lookups=len(lookup_tasks),
             dns_calls=env.dns_calls,
-            trace=env.trace,
+            trace=env.trace, c_before=at.get("c_before", -1), c_after=at.get("c_after", -1),
             eff_total=None if tmo.total is None else int(round(tmo.total * 1000)),
             c_waits_dns=1 if (co in ("dnsfirst", "dnswait", "dnsafter") and res["C"] is None and "C" in tasks
                               and conn._throttle_dns_futures) else 0,
